@@ -61,3 +61,7 @@ Definition failing : list string := filter (fun a => negb (check_attr a)) attr_n
 
 Definition findings : list string :=
   map fst (filter (fun p => match snd p with Finding => true | _ => false end) classification).
+
+(* no attribute is classified `finding` (decides the table half of the full statement) *)
+Definition no_finding_b : bool :=
+  forallb (fun a => match class_of a with Some Finding | None => false | Some _ => true end) attr_names.
